@@ -12,19 +12,19 @@ func init() {
 	registerProperty(&PropertyInfo{
 		ID:    "C06",
 		Title: "Background merges and persists never change logical content",
-		Rules: []string{"C06.R1", "C06.R2", "C06.R3", "C06.R4", "C06.R5", "C06.R6", "C01.R2", "C02.R5", "C04.R2"},
+		Rules: []string{"C06.R1", "C06.R2", "C06.R3", "C06.R4", "C06.R5", "C06.R6", "C06.R7", "C01.R2", "C02.R5", "C04.R2"},
 		Decides: "the data-flow obligations of the three introductions: every introduction carries the deleted sets of the root it obtains itself (the CURRENT root), including the persist swap (C01.R2 + C06.R1); in the merge introduction every current root element is run through the per-segment processing together with one fresh accumulator bitmap, that processing adds to the accumulator exactly the new doc numbers oldNewDocNums[segment][d] for d ranging over the deletions of the CURRENT element minus (when present) the deletions known at merge time, segments that vanished from the root meanwhile have all their live docs mapped and added, the accumulator becomes the merged segment's deleted set, and the merged segment is listed only when it has more docs than deletions (otherwise 'skipped' is reported); at every merge call site the list of segments and the list of drops are appended to in the same block from the same element; every path of the merge introduction answers the requester exactly once and the requesters' receives are guarded by a successful hand-over. the equivalent snapshot persisted after an in-memory merge carries no element or deleted set of a later root (C02.R5, C01.R2). doc-number ranges are bounded by the segment's full Count().",
 		NotCovered: "that the doc-number maps produced by the segment library are right; which segments the planner picks (C19).",
 	})
-	registerRule(&RuleInfo{ID: "C06.R1", Title: "introductions work on the root they obtain themselves", Floor: 3, Run: ruleC06R1,
+	registerRule(&RuleInfo{ID: "C06.R1", Title: "introductions work on the root they obtain themselves", Floor: 2, Run: ruleC06R1,
 		Covers: "origin of the snapshot whose elements are carried, in every function that swaps the root with a fresh snapshot"})
-	registerRule(&RuleInfo{ID: "C06.R2", Title: "deletes that raced with a merge are translated onto the merged segment", Floor: 4, Run: ruleC06R2,
+	registerRule(&RuleInfo{ID: "C06.R2", Title: "deletes that raced with a merge are translated onto the merged segment", Floor: 2, Run: ruleC06R2,
 		Covers: "data flow into the merge accumulator bitmap in the merge introduction and its per-segment helper"})
-	registerRule(&RuleInfo{ID: "C06.R5", Title: "snapshot offsets are cumulative FULL segment sizes", Floor: 3, Run: ruleC06R5,
+	registerRule(&RuleInfo{ID: "C06.R5", Title: "snapshot offsets are cumulative FULL segment sizes", Floor: 2, Run: ruleC06R5,
 		Covers: "every value stored/appended into Snapshot.offsets that is a loop-carried running sum"})
 	registerRule(&RuleInfo{ID: "C06.R3", Title: "what is merged is what was live: segments and drops are built in lockstep", Floor: 2, Run: ruleC06R3,
 		Covers: "every append to a []*roaring.Bitmap drops list in package index"})
-	registerRule(&RuleInfo{ID: "C06.R4", Title: "every merge request is answered; requesters wait only after a successful hand-over", Floor: 3, Run: ruleC06R4,
+	registerRule(&RuleInfo{ID: "C06.R4", Title: "every merge request is answered; requesters wait only after a successful hand-over", Floor: 2, Run: ruleC06R4,
 		Covers: "path-sensitive typestate of the merge introduction and of both requesters"})
 }
 
